@@ -64,4 +64,18 @@ def filterT (cap : Nat) (T : List Ivs) : Pred → List Ivs
   | .or p q => List.zipWith (union cap) (filterT cap T q) (filterT cap T p)
   | .other _ => T
 
+/-- the kinds of join whose ON predicate `DataType::filter_by_join_operator` (`relation/mod.rs`) narrows the two sides by -/
+inductive JoinKind where | inner | left | right | full
+  deriving DecidableEq, Repr
+
+/-- the column types of the two sides after the ON predicate: both sides narrowed for an inner join; for a LEFT (RIGHT) outer join only
+the right (left) side, because every row of the preserved side comes out whether or not it satisfies the predicate; nothing for FULL -/
+def joinNarrow (cap : Nat) (k : JoinKind) (TL TR : List Ivs) (p : Pred) : List Ivs × List Ivs :=
+  let F := filterT cap (TL ++ TR) p
+  match k with
+  | .inner => (F.take TL.length, F.drop TL.length)
+  | .left => (TL, F.drop TL.length)
+  | .right => (F.take TL.length, TR)
+  | .full => (TL, TR)
+
 end Qrlew
